@@ -365,9 +365,46 @@ def check_repeat(data, nlb):
     return []
 
 
+class _Truthy(object):
+    def __bool__(self):
+        return True
+
+
+class _Falsy(object):
+    def __bool__(self):
+        return False
+
+
+def check_flag_types(data, nlb):
+    """keep_ends is a flag: every truthy value selects the kept-ends
+    result, every falsy one the other."""
+    keep = split_lines(data, nlb, keep_ends=True)
+    bare = split_lines(data, nlb, keep_ends=False)
+    v = []
+    for flag in (1, 2, -1, 'yes', 'False', [0], 1.0, _Truthy()):
+        if split_lines(data, nlb, keep_ends=flag) != keep:
+            v.append(('law4-flag-truthiness:truthy-%s'
+                      % type(flag).__name__,
+                      'keep_ends=%r does not give the kept-ends result'
+                      % (flag,)))
+    for flag in (0, None, '', [], 0.0, _Falsy()):
+        if split_lines(data, nlb, keep_ends=flag) != bare:
+            v.append(('law4-flag-truthiness:falsy-%s' % type(flag).__name__,
+                      'keep_ends=%r does not give the bare result'
+                      % (flag,)))
+    return v
+
+
 def run_repeat_unit(ni):
     acc = Acc()
     name, nlb = NEWLINES[ni]
+    for i, data in enumerate(repeat_cases(nlb)):
+        viols = check_flag_types(data, nlb)
+        acc.evals += 14
+        acc.transitions += 14
+        for key, msg in viols:
+            acc.violation('%s:%s' % (key, name.split('/')[0]), msg,
+                          {'kind': 'flags', 'ni': ni, 'i': i})
     for i, data in enumerate(repeat_cases(nlb)):
         viols = check_repeat(data, nlb)
         acc.evals += REPEAT_CALLS
@@ -468,6 +505,11 @@ def run_scale_unit(ni):
 
 
 def replay(payload):
+    if payload.get('kind') == 'flags':
+        name, nlb = NEWLINES[payload['ni']]
+        viols = check_flag_types(repeat_cases(nlb)[payload['i']], nlb)
+        return [{'key': '%s:%s' % (k, name.split('/')[0]), 'msg': m}
+                for k, m in viols]
     if payload.get('kind') == 'repeat':
         name, nlb = NEWLINES[payload['ni']]
         viols = check_repeat(repeat_cases(nlb)[payload['i']], nlb)
